@@ -4,7 +4,10 @@
 // finding them through int2bv/bv2nat.
 package main
 
-import "math/big"
+import (
+	"math/big"
+	"sort"
+)
 
 func pow2(w int) *big.Int { return new(big.Int).Lsh(big.NewInt(1), uint(w)) }
 
@@ -33,6 +36,20 @@ func bridgeFacts(terms []*Term) []*Term {
 			want(t.Args[0])
 		case "bvult", "bvule":
 			cmps = append(cmps, [3]interface{}{t.Op, t.Args[0], t.Args[1]})
+			// a comparison against a converted integer is really an integer comparison
+			if t.Args[0].Op == "int2bv" || t.Args[1].Op == "int2bv" {
+				want(t.Args[0])
+				want(t.Args[1])
+			}
+		case "=":
+			if t.Args[0].S.K == SBV && (t.Args[0].Op == "int2bv" || t.Args[1].Op == "int2bv") && !t.hasB {
+				want(t.Args[0])
+				want(t.Args[1])
+				a, b := t.Args[0], t.Args[1]
+				if a.Op != "bv" && b.Op != "bv" {
+					add(Eq(Eq(a, b), Eq(BV2Int(a), BV2Int(b))))
+				}
+			}
 		}
 	}
 	lit := func(t *Term) (*big.Int, bool) {
@@ -137,6 +154,30 @@ func bridgeFacts(terms []*Term) []*Term {
 			want(x.Args[1])
 			want(x.Args[2])
 			add(Eq(nx, Ite(x.Args[0], BV2Int(x.Args[1]), BV2Int(x.Args[2]))))
+		}
+	}
+	// injectivity of the unsigned value, for converted integers against the other terms of that width
+	{
+		var all []*Term
+		for x := range done {
+			all = append(all, x)
+		}
+		sort.Slice(all, func(i, j int) bool { return all[i].id < all[j].id })
+		n := 0
+		for _, a := range all {
+			if a.Op != "int2bv" {
+				continue
+			}
+			for _, b := range all {
+				if b == a || b.S != a.S || (b.Op == "int2bv" && b.id < a.id) {
+					continue
+				}
+				if n > 150 {
+					break
+				}
+				n++
+				add(Implies(Eq(BV2Int(a), BV2Int(b)), Eq(a, b)))
+			}
 		}
 	}
 	for _, c := range cmps {
